@@ -333,8 +333,11 @@ func (hm *allSegmentMetadata) deleteTable(table string, orgid int64) {
 	for segKey := range allSegKeysInTable {
 		hm.deleteSegmentKeyWithLock(segKey)
 	}
-	delete(hm.tableSortedMetadata, table)
-	GlobalSegStoreSummary.DecrementTotalTableCount()
+	// the table entry is shared with the other orgs that have an index of this name
+	if len(hm.tableSortedMetadata[table]) == 0 {
+		delete(hm.tableSortedMetadata, table)
+		GlobalSegStoreSummary.DecrementTotalTableCount()
+	}
 }
 
 // internal function to delete segment key from all SiglensMetadata structs
